@@ -116,6 +116,8 @@ class Session:
             arg, inmem = self.libfile(), False
         elif path == "inmem_file":
             arg, inmem = self.libfile(), True
+        elif path in ("count", "count_inmem"):
+            arg, inmem = int(self.lib.N), path == "count_inmem"
         else:
             raise ValueError(path)
         budget_eff = budget
